@@ -141,7 +141,7 @@ const (
 var faultNames = [...]string{"none", "cancel", "cancel+calls-fail", "client-error-once", "client-errors-from", "client-errors-intermittent"}
 
 // callKinds are the client calls a fault can be aimed at (0: any call).
-var callKinds = [...]string{"", "MatchingVersions", "Requirements", "Versions", "Version"}
+var callKinds = [...]string{"", "MatchingVersions", "Requirements", "Versions", "Version", "MatchingVersions:latest"}
 
 func callKindIndex(label string) int {
 	for i := 1; i < len(callKinds); i++ {
@@ -185,7 +185,22 @@ func (c *simClient) enableFaults() {
 	c.fkind, c.fat, c.flabel, c.fperiod, c.fcount, c.fired = make([]int, n), make([]int, n), make([]int, n), make([]int, n), make([]int, n), make([]bool, n)
 }
 
-func (c *simClient) enter(label string) error {
+// aimed reports whether a call is of the kind a fault is aimed at. The last
+// kind is the lookup of the npm dist-tag "latest", a site where the resolver
+// swallows client errors.
+func aimed(kind int, label, detail string) bool {
+	switch {
+	case kind == 0:
+		return true
+	case callKinds[kind] == "MatchingVersions:latest":
+		return label == "MatchingVersions" && detail == "latest"
+	}
+	return callKinds[kind] == label
+}
+
+func (c *simClient) enter(label string) error { return c.enterCall(label, "") }
+
+func (c *simClient) enterCall(label, detail string) error {
 	s := c.s
 	if s == nil {
 		return nil
@@ -214,10 +229,10 @@ func (c *simClient) enter(label string) error {
 		}
 		return errBudget
 	}
-	if c.fkind != nil && c.fkind[t] != faultNone && (c.flabel[t] == 0 || callKinds[c.flabel[t]] == label) {
+	if c.fkind != nil && c.fkind[t] != faultNone && aimed(c.flabel[t], label, detail) {
 		c.fcount[t]++
 	}
-	if c.fkind != nil && c.fkind[t] != faultNone && c.fcount[t] >= c.fat[t] && (c.fired[t] || c.flabel[t] == 0 || callKinds[c.flabel[t]] == label) {
+	if c.fkind != nil && c.fkind[t] != faultNone && c.fcount[t] >= c.fat[t] && (c.fired[t] || aimed(c.flabel[t], label, detail)) {
 		first := !c.fired[t]
 		c.fired[t] = true
 		s.SetNote(t, noteFired, 1)
@@ -238,7 +253,7 @@ func (c *simClient) enter(label string) error {
 		case faultErrFrom:
 			return errInjected
 		case faultErrEvery:
-			if c.flabel[t] != 0 && callKinds[c.flabel[t]] != label {
+			if !aimed(c.flabel[t], label, detail) {
 				break // intermittent errors stay on the kind of call they are aimed at
 			}
 			if (c.fcount[t]-c.fat[t])%c.fperiod[t] == 0 {
@@ -271,7 +286,7 @@ func (c *simClient) Requirements(ctx context.Context, vk resolve.VersionKey) ([]
 }
 
 func (c *simClient) MatchingVersions(ctx context.Context, vk resolve.VersionKey) ([]resolve.Version, error) {
-	if err := c.enter("MatchingVersions"); err != nil {
+	if err := c.enterCall("MatchingVersions", vk.Version); err != nil {
 		return nil, err
 	}
 	return c.inner.MatchingVersions(ctx, vk)
